@@ -8,6 +8,7 @@
 #include <vector>
 #include <sstream>
 #include <iostream>
+#include "complex_math.h"   // before Vector.h: the lifting to vectors of complex numbers finds the complex overload only then
 #include "Jones.h"
 #include "Estimate.h"
 #include "Vector.h"
@@ -88,6 +89,11 @@ int main ()
       else if (op == "tm.mat23") { Matrix<2,3,double> m; for (unsigned i=0;i<2;i++) for (unsigned j=0;j<3;j++) m[i][j] = rd64 (t[1+3*i+j]); o << " " << (true_math::finite (m) ? 1 : 0); }
       else if (op == "tm.mat22") { Matrix<2,2,double> m; for (unsigned i=0;i<2;i++) for (unsigned j=0;j<2;j++) m[i][j] = rd64 (t[1+2*i+j]); o << " " << (true_math::finite (m) ? 1 : 0); }
       else if (op == "tm.vecvec") { Vector<2, Vector<2,double> > m; for (unsigned i=0;i<2;i++) for (unsigned j=0;j<2;j++) m[i][j] = rd64 (t[1+2*i+j]); o << " " << (true_math::finite (m) ? 1 : 0); }
+      // vectors of complex numbers (Vector<N,complex<T>>, Stokes<complex<T>>): every real and imaginary part through the wrappers
+      else if (op == "tm.cvec") { Vector<2, std::complex<double> > v; v[0] = std::complex<double> (rd64 (t[1]), rd64 (t[2])); v[1] = std::complex<double> (rd64 (t[3]), rd64 (t[4])); o << " " << (true_math::finite (v) ? 1 : 0); }
+      else if (op == "tm.cvecf") { Vector<2, std::complex<float> > v; v[0] = std::complex<float> (rd32 (t[1]), rd32 (t[2])); v[1] = std::complex<float> (rd32 (t[3]), rd32 (t[4])); o << " " << (true_math::finite (v) ? 1 : 0); }
+      else if (op == "tm.cvecld") { Vector<2, std::complex<long double> > v; v[0] = std::complex<long double> (rd80 (t[1]), rd80 (t[2])); v[1] = std::complex<long double> (rd80 (t[3]), rd80 (t[4])); o << " " << (true_math::finite (v) ? 1 : 0); }
+      else if (op == "tm.cstokes") { Stokes< std::complex<double> > v; for (unsigned i=0;i<4;i++) v[i] = std::complex<double> (rd64 (t[1+2*i]), rd64 (t[2+2*i])); o << " " << (true_math::finite (v) ? 1 : 0); }
       else if (op == "tm.kd") konst<double> ((unsigned) std::stoul (t[1]), o);
       else if (op == "tm.kf") konst<float> ((unsigned) std::stoul (t[1]), o);
       else if (op == "tm.kld") konst<long double> ((unsigned) std::stoul (t[1]), o);
